@@ -889,7 +889,7 @@ fn node_tags(nodes: &[Node], out: &mut BTreeSet<String>, in_for: bool) {
 /// `slot:` value references on an element that is not a direct child of the component whose slot
 /// it fills (it sits under a wx:if / wx:for / block inside the component's children)
 fn slot_ref_wrapper_tags(nodes: &[Node], in_comp_children: bool, wrapped: bool, out: &mut BTreeSet<String>) {
-    const COMPS: &[&str] = &["plain", "styled", "multi", "mchild", "mnest", "mobs", "sslots", "dyn", "dynnk", "dynt", "dynn", "dynself"];
+    const COMPS: &[&str] = &["plain", "styled", "multi", "multi2", "mchild", "mnest", "mobs", "sslots", "dyn", "dynnk", "dynt", "dynn", "dynself"];
     for n in nodes {
         match n {
             Node::El { tag, attrs, children } => {
